@@ -29,8 +29,9 @@ static std::string addr(const void* p) {
   return kv("hi", (long long)(a >> 20)) + "," + kv("lo", (long long)(a & 0xFFFFF));
 }
 static void logAlloc(int t, int heap, size_t req, void* p, size_t usable, size_t gran) {
-  L->ev(t, ks("ev", "alloc") + "," + kv("h", heap) + "," + kv("t", t) + "," + kv("req", (long long)req) + "," + addr(p) + "," +
-               kv("usable", (long long)usable) + "," + kv("g", (long long)gran) + "," + kv("null", p ? 0 : 1));
+  // sizes as (megabytes, bytes) pairs like the addresses
+  L->ev(t, ks("ev", "alloc") + "," + kv("h", heap) + "," + kv("t", t) + "," + kv("rm", (long long)(req >> 20)) + "," + kv("req", (long long)(req & 0xFFFFF)) + "," + addr(p) + "," +
+               kv("um", (long long)(usable >> 20)) + "," + kv("usable", (long long)(usable & 0xFFFFF)) + "," + kv("g", (long long)gran) + "," + kv("null", p ? 0 : 1));
 }
 static void fill(Blk& b) { if (b.p) memset(b.p, b.tag, b.usable); }
 static bool intact(const Blk& b) { for (size_t i = 0; i < b.usable; ++i) if ((unsigned char)b.p[i] != b.tag) return false; return true; }
@@ -102,7 +103,8 @@ static size_t pickSize(int heap, vh::Rng& r, bool small) {
   if (heap == 3 && s > 200000) s = 70000;
   if (heap == 8) s = small ? 1 + r.below(5000) : 1 + r.below(3u << 20);
   if (heap == 7) s = r.below(5);
-  if (small && (heap == 4 || heap == 5) && s > 100000) s = 4097;
+  // (the per-iteration heap keeps half of its oversize requests -- they go to its malloc fallback in the middle of a run of page-sized bumps)
+  if (small && (heap == 4 || (heap == 5 && r.coin(1, 2))) && s > 100000) s = 4097;
   return s;
 }
 
@@ -142,6 +144,19 @@ static void seqHistory(uint64_t seed, int len, int h) {
       }
       L->ev(0, ks("ev", "clear") + "," + kv("h", which));
       if (which == 4) H.var.clear(); else H.iter.clear();
+    }
+    if (h == 8 && i % 7 == 3 && las.size() < 6) {
+      // a floating array of several gigabytes (address space only; nothing but three of its pages is ever touched): it must
+      // be mapped over its whole length and overlap nothing
+      static const size_t huge[] = {(4ull << 30) - 4096, 4ull << 30, (4ull << 30) + (2ull << 20), 5ull << 30, (2ull << 30) + 1, 9ull << 30};
+      size_t n = huge[r.below(6)];
+      auto* a = new galois::LargeArray<char>();
+      a->allocateFloating(n);
+      Blk b{a->data(), n, 8, 0};
+      logAlloc(0, 8, n, b.p, n, 4096);
+      if (b.p) { b.p[0] = 1; b.p[n / 2] = 2; b.p[n - 1] = 3; if (b.p[0] != 1 || b.p[n / 2] != 2 || b.p[n - 1] != 3) L->ev(0, ks("ev", "bad") + "," + ks("what", "huge") + "," + kv("h", 8)); }
+      b.usable = 0;   // (no canary over gigabytes)
+      las.push_back({a, b});
     }
     if (!pts.empty() && r.coin(1, 4)) { size_t k = r.below(pts.size()); logFree(0, pts[k].second); delete pts[k].first; pts.erase(pts.begin() + k); }
     if (!las.empty() && r.coin(1, 3)) { size_t k = r.below(las.size()); logFree(0, las[k].second); las[k].first->deallocate(); delete las[k].first; las.erase(las.begin() + k); }
